@@ -10,10 +10,12 @@ def _ids(ids):
 
 def _str_lit(s):
     if isinstance(s, list):
-        s = "".join(s)
+        s = "".join("\0" if c == "NUL" else c for c in s)
     out = '"'
     for ch in s:
-        if ch == '"':
+        if ch == "\0":
+            out += '\\x00'
+        elif ch == '"':
             out += '\\"'
         elif ch == '\\':
             out += '\\\\'
@@ -136,7 +138,7 @@ def norm_model_value(v, with_pos=True):
     elif t == "s":
         sv = v["s"]
         if isinstance(sv, list):
-            sv = "".join(sv)
+            sv = "".join("\0" if c == "NUL" else c for c in sv)
         r = ("str", sv.encode("latin-1", "replace"))
     elif t == "q":
         r = ("seq", tuple(norm_model_value(e, with_pos) for e in v["q"]))
